@@ -189,6 +189,99 @@ fn concat(chunks: &[Vec<u8>]) -> Vec<u8> {
 }
 
 /// All derived quantities for one item of any hashable type.
+/// An item whose `Hash` impl issues an arbitrary sequence of *typed* writes (`write_u8` .. `write_u128`,
+/// `write_usize`, the signed ones, and byte slices): a hasher may override any of them, and each override has its
+/// own way of meeting a block boundary.
+#[derive(Clone, Debug)]
+pub enum TypedWrite {
+    U8(u8),
+    U16(u16),
+    U32(u32),
+    U64(u64),
+    U128(u128),
+    Usize(usize),
+    I8(i8),
+    I16(i16),
+    I32(i32),
+    I64(i64),
+    I128(i128),
+    Isize(isize),
+    Bytes(Vec<u8>),
+}
+
+#[derive(Clone, Debug)]
+pub struct TypedSeq(pub Vec<TypedWrite>);
+
+impl Hash for TypedSeq {
+    fn hash<H: std::hash::Hasher>(&self, state: &mut H) {
+        for w in &self.0 {
+            match w {
+                TypedWrite::U8(x) => state.write_u8(*x),
+                TypedWrite::U16(x) => state.write_u16(*x),
+                TypedWrite::U32(x) => state.write_u32(*x),
+                TypedWrite::U64(x) => state.write_u64(*x),
+                TypedWrite::U128(x) => state.write_u128(*x),
+                TypedWrite::Usize(x) => state.write_usize(*x),
+                TypedWrite::I8(x) => state.write_i8(*x),
+                TypedWrite::I16(x) => state.write_i16(*x),
+                TypedWrite::I32(x) => state.write_i32(*x),
+                TypedWrite::I64(x) => state.write_i64(*x),
+                TypedWrite::I128(x) => state.write_i128(*x),
+                TypedWrite::Isize(x) => state.write_isize(*x),
+                TypedWrite::Bytes(b) => state.write(b),
+            }
+        }
+    }
+}
+
+fn gen_typed_seq(rng: &mut Rng) -> TypedSeq {
+    let one = |rng: &mut Rng| -> TypedWrite {
+        let v = rng.next_u64();
+        match rng.below(13) {
+            0 => TypedWrite::U8(v as u8),
+            1 => TypedWrite::U16(v as u16),
+            2 => TypedWrite::U32(v as u32),
+            3 => TypedWrite::U64(v),
+            4 => TypedWrite::U128(((v as u128) << 64) | rng.next_u64() as u128),
+            5 => TypedWrite::Usize(v as usize),
+            6 => TypedWrite::I8(v as i8),
+            7 => TypedWrite::I16(v as i16),
+            8 => TypedWrite::I32(v as i32),
+            9 => TypedWrite::I64(v as i64),
+            10 => TypedWrite::I128((((v as u128) << 64) | rng.next_u64() as u128) as i128),
+            11 => TypedWrite::Isize(v as isize),
+            _ => {
+                let n = rng.usize(0, 20);
+                TypedWrite::Bytes(rng.bytes(n))
+            }
+        }
+    };
+    // half of the sequences are homogeneous runs that end exactly on a 16- or 32-byte boundary
+    if rng.chance(0.5) {
+        let total = *rng.pick(&[16usize, 32, 48, 64]);
+        let (w, mk): (usize, fn(u64) -> TypedWrite) = match rng.below(5) {
+            0 => (1, |v| TypedWrite::U8(v as u8)),
+            1 => (2, |v| TypedWrite::I16(v as i16)),
+            2 => (4, |v| TypedWrite::U32(v as u32)),
+            3 => (8, |v| TypedWrite::I64(v as i64)),
+            _ => (16, |v| TypedWrite::U128(v as u128 * 0x1_0000_0001_0000_0001)),
+        };
+        let mut ops: Vec<TypedWrite> = vec![];
+        // a mixed-width head, then the run, so that the last write lands on the boundary
+        let head = if rng.chance(0.5) { vec![TypedWrite::U64(rng.next_u64())] } else { vec![] };
+        let head_len = head.len() * 8;
+        ops.extend(head);
+        let mut len = head_len;
+        while len + w <= total {
+            ops.push(mk(rng.next_u64()));
+            len += w;
+        }
+        return TypedSeq(ops);
+    }
+    let n = rng.usize(1, 10);
+    TypedSeq((0..n).map(|_| one(rng)).collect())
+}
+
 fn derived_for_item<T: Hash + Clone>(ctx: &mut Ctx, item: T, label: &str, rng: &mut Rng) {
     let chunks = rt::hashed_chunks(&item);
     let bytes = concat(&chunks);
@@ -341,6 +434,47 @@ fn derived_for_item<T: Hash + Clone>(ctx: &mut Ctx, item: T, label: &str, rng: &
     }
 }
 
+/// `update_f64` / `update_f32` hash the canonical bit pattern of the double (one NaN, one zero): the derived theta hash
+/// and CPC (row, col) must be those of that pattern for every special value.
+fn derived_floats(ctx: &mut Ctx, rng: &mut Rng) {
+    for i in 0..6 {
+        let (v64, is32) = if i % 2 == 0 { (rt::special_f64(rng), false) } else { (rt::special_f32(rng) as f64, true) };
+        let v32 = v64 as f32;
+        let bits = rt::canonical_f64_bits(v64);
+        let bytes = rt::hashed_bytes(&bits);
+        let seed = *rng.pick(&[9001u64, 1, u64::MAX]);
+        let (h1, h2) = refhash::murmur3_x64_128(&bytes, seed);
+        let mut s = ThetaSketch::builder().lg_k(5).seed(seed).build();
+        if is32 {
+            s.update_f32(v32);
+        } else {
+            s.update_f64(v64);
+        }
+        let want = h1 >> 1;
+        let got: Vec<u64> = s.iter().collect();
+        let expect: Vec<u64> = if want == 0 || want >= s.theta64() { vec![] } else { vec![want] };
+        ctx.evals(1);
+        ctx.check(got == expect, "theta hash != reference derivation", || {
+            format!("update_f{}({:e}, bits {:016x}) seed={} got={:x?} want={:x?}", if is32 { 32 } else { 64 }, v64, v64.to_bits(), seed, got, expect)
+        });
+        let lg_k = *rng.pick(&[4u8, 9, 14]);
+        let k = 1u64 << lg_k;
+        let mut c = CpcSketch::with_seed(lg_k, seed);
+        if is32 {
+            c.update_f32(v32);
+        } else {
+            c.update_f64(v64);
+        }
+        let (row, col) = ((h1 & (k - 1)) as usize, h2.leading_zeros().min(63));
+        let m = c.verif_bit_matrix();
+        let ok = m.iter().enumerate().all(|(r, w)| if r == row { *w == 1u64 << col } else { *w == 0 });
+        ctx.check(ok, "CPC (row,col) != reference derivation", || {
+            format!("update_f{}({:e}, bits {:016x}) seed={} lg_k={} want row {} col {}", if is32 { 32 } else { 64 }, v64, v64.to_bits(), seed, lg_k, row, col)
+        });
+        ctx.cover("float_items");
+    }
+}
+
 fn derived_case(ctx: &mut Ctx, case: &Json) {
     let cseed = case.u64("seed").unwrap_or(0);
     let mut rng = Rng::new(cseed);
@@ -372,8 +506,15 @@ fn derived_case(ctx: &mut Ctx, case: &Json) {
     let wlen = rng.usize(0, 9);
     let wide: Vec<u64> = (0..wlen).map(|_| rng.next_u64()).collect();
     derived_for_item(ctx, wide, "Vec<u64>", &mut rng);
-    derived_for_item(ctx, 'x', "char", &mut rng);
+    derived_for_item(ctx, char::from_u32(rng.range(32, 0x2fff) as u32).unwrap_or('x'), "char", &mut rng);
     derived_for_item(ctx, (), "unit", &mut rng);
+    derived_for_item(ctx, (n, n as u32, rng.next_u32()), "tuple(u64,u32,u32)", &mut rng);
+    derived_for_item(ctx, ['a', char::from_u32(rng.range(0x80, 0x7ff) as u32).unwrap_or('b'), 'c', 'd'], "[char;4]", &mut rng);
+    for _ in 0..4 {
+        let t = gen_typed_seq(&mut rng);
+        derived_for_item(ctx, t, "typed-writes", &mut rng);
+    }
+    derived_floats(ctx, &mut rng);
     ctx.end_case(fp.get(), true);
 }
 
